@@ -529,6 +529,9 @@ RULES = [("placement-walk", rule_placement_walk), ("setters", rule_setters), ("l
 # the top record must be what the rules say for any record (C03 clock, en-passant and accessor clauses; C02 en-passant restore)
 RULES += engine.premise_rules("c03", ["clock", "ep", "accessors"])
 RULES += engine.premise_rules("c02", ["ep-restore"])
+# a user loads a FEN through `position fen ...`: the six tokens reach from_fen as written, on a fresh board, and the result
+# is what the session holds afterwards (C08)
+RULES += engine.premise_rules("c08", ["fresh", "commit", "tokens", "dispatch"])
 
 
 def run(tier):
